@@ -346,14 +346,29 @@ where
     /// `false`.
     #[inline(always)]
     fn eq(&self, other: &Self) -> bool {
-        self.amount() == other.equiv_amount(self.unit())
+        if self.unit() == other.unit() {
+            self.amount() == other.amount()
+        } else if self.unit().scale() > other.unit().scale() {
+            // Always convert towards the unit with the smaller scale, so
+            // that `a == b` and `b == a` compare the same two numbers.
+            self.equiv_amount(other.unit()) == other.amount()
+        } else {
+            self.amount() == other.equiv_amount(self.unit())
+        }
     }
 
-    /// Returns the partial order of `self`s amount and `other`s eqivalent
-    /// amount in `self`s unit.
+    /// Returns the partial order of `self`s and `other`s amounts, both
+    /// expressed in that of the two units which has the smaller scale.
     fn partial_cmp(&self, other: &Self) -> Option<Ordering> {
         if self.unit() == other.unit() {
             PartialOrd::partial_cmp(&self.amount(), &other.amount())
+        } else if self.unit().scale() > other.unit().scale() {
+            // Same conversion direction as in `eq`, so that `a < b` and
+            // `b > a` compare the same two numbers.
+            PartialOrd::partial_cmp(
+                &self.equiv_amount(other.unit()),
+                &other.amount(),
+            )
         } else {
             PartialOrd::partial_cmp(
                 &self.amount(),
